@@ -34,13 +34,24 @@ def run(ctx, mode='C02'):
         scope = ctx.rng.choice(['func'] * 7 + ['module'] * 2 + ['class'])
         if c03:
             g = pygen.Gen(ctx.rng, allow_return=False, full_raise=True, max_stmts=ctx.rng.choice([4, 6, 8]), max_depth=3,
-                          comps=(scope != 'class'), names=ctx.rng.choice([None, None, pygen.POOL[:2], pygen.POOL[:3]]))
+                          comps=(scope != 'class'), comp_self=False,
+                          names=ctx.rng.choice([None, None, pygen.POOL[:2], pygen.POOL[:3]]))
             trees.append((g.program(lo=2, hi=4), scope))
         else:
-            g = pygen.Gen(ctx.rng, allow_return=(scope == 'func'), full_raise=False, comps=(scope != 'class'),
+            g = pygen.Gen(ctx.rng, allow_return=(scope == 'func'), full_raise=False, comps=(scope != 'class'), comp_self=False,
                           names=ctx.rng.choice([None, None, pygen.POOL[:2], pygen.POOL[:3]]))
             trees.append((g.program(), scope))
 
+    # outside the stated domain (a comprehension element reads the name its statement rebinds, F59): evaluated by the
+    # direct evaluators only, failures are extended-domain failures, not violations
+    ext_from = len(trees)
+    trees += [(t, 'func') for t in rc.corpus_trees_ext()]
+    for i in range(ctx.pick(12, 120)):
+        g = pygen.Gen(ctx.rng, allow_return=False, full_raise=True, max_stmts=ctx.rng.choice([4, 6]), max_depth=2,
+                      comp_self=True, names=pygen.POOL[:3])
+        trees.append(([('comp', g.reads(0, 1), None, [(g.new(), 'a')], [(g.new(), 'a')], ctx.rng.choice(['plain', 'ann', 'walrus']), [])]
+                      + g.program(lo=2, hi=3), 'func'))
+    cov['extended_domain_programs'] = len(trees) - ext_from
     src_of, lay_of = {}, {}
     impl_terms, impl_noscope_terms, ref_terms = [], [], []
     impl_meta, ref_meta = [], []
@@ -58,7 +69,9 @@ def run(ctx, mode='C02'):
         if obs['unknown_alt']:
             direct_bad.append((idx, 'alternative that is no binding site of the program: %r' % (obs['unknown_alt'][:3],), None))
         term = rc.impl_case_term(body, obs)
-        if scope == 'func':
+        if idx >= ext_from:
+            pass
+        elif scope == 'func':
             impl_terms.append(term)
             impl_meta.append(idx)
         else:
@@ -82,8 +95,9 @@ def run(ctx, mode='C02'):
             multi = any(v is not None and isinstance(obs['seen'].get(r), list) and len(obs['seen'][r]) > 1 for r, v in log)
             ctx.count((src, tuple(eff)), nontrivial=multi)
             ctx.histogram('trace_len', min(len(log), 20) // 5 * 5)
-            ref_terms.append(rc.ref_case_term(body, eff, log))
-            ref_meta.append((idx, eff))
+            if idx < ext_from:
+                ref_terms.append(rc.ref_case_term(body, eff, log))
+                ref_meta.append((idx, eff))
             for b in rc.direct_c02(obs, log):
                 direct_bad.append((idx, b[0], eff))
         if idx < 3:
@@ -98,7 +112,12 @@ def run(ctx, mode='C02'):
             continue
         reported.add(key)
         body, scope = trees[idx]
-        ctx.violation(what, {'kind': 'direct', 'scope': scope, 'tree': body, 'source': src_of.get(id(body)) or pygen.render_plain(body, scope)[0], 'layout_seed': lay_of.get(id(body)), 'decisions': eff})
+        rep = {'kind': 'direct', 'scope': scope, 'tree': body, 'source': src_of.get(id(body)) or pygen.render_plain(body, scope)[0], 'layout_seed': lay_of.get(id(body)), 'decisions': eff}
+        if idx >= ext_from:
+            ctx.extension_failure(what + ' (a comprehension element reads the name its statement binds)', rep)
+        else:
+            ctx.violation(what, rep)
+    direct_bad = [b for b in direct_bad if b[0] < ext_from]
 
     bad_i = ctx.run_cases(rc.IMPORTS, rc.CHECK_PRELUDE, 'check_impl', impl_terms, shard=150)
     bad_n = ctx.run_cases(rc.IMPORTS, rc.CHECK_PRELUDE, 'check_impl_noscope', impl_noscope_terms, shard=150)
@@ -157,7 +176,9 @@ def corpus_x():
 
 
 def part_x(ctx):
-    """C02 with loop exits (return / break / continue; fragment okx of Model/ReachX.v): theorem C02X_sound.
+    """EXTENSION beyond the property's stated domain ("loops left only by exhaustion"): C02 with loop exits
+    (return / break / continue; fragment okx of Model/ReachX.v): theorem C02X_sound. Failures here are
+    extended-domain failures (printed, recorded in the evidence), not violations of C02 as stated.
     (I) Model/ReachX.v vs supp, (R) Model/SemXS.v vs CPython, direct site-level evaluation of every execution."""
     cov = ctx.coverage
     nprog = ctx.pick(100, 1000)
@@ -206,8 +227,8 @@ def part_x(ctx):
             continue
         reported.add((idx, what))
         body, scope = trees[idx]
-        ctx.violation(what + ' (program with loop exits)', {'kind': 'direct', 'scope': scope, 'tree': body, 'source': obs_of[idx][0],
-                                                             'layout_seed': obs_of[idx][1].get('layout_seed'), 'decisions': eff})
+        ctx.extension_failure(what + ' (program with loop exits)', {'kind': 'direct', 'scope': scope, 'tree': body, 'source': obs_of[idx][0],
+                                                                    'layout_seed': obs_of[idx][1].get('layout_seed'), 'decisions': eff})
     ty = 'cmd * list (N * list alt) * list N * list N'
     bad_i = ctx.run_cases(rc.IMPORTS, rc.CHECK_PRELUDE, 'check_implx', impl_terms, case_type=ty, shard=150)
     bad_r = ctx.run_cases(rc.IMPORTS, rc.CHECK_PRELUDE, 'check_refXs', ref_terms, shard=400)
@@ -218,20 +239,18 @@ def part_x(ctx):
     cov['X_theorem_instance_failures'] = len(bad_s)
     if bad_i and not direct_bad:
         idx = impl_meta[bad_i[0]]
-        ctx.violation('(I) correspondence Model/ReachX.v vs supp no longer checks on %d programs with loop exits; '
+        ctx.extension_failure('(I) correspondence Model/ReachX.v vs supp no longer checks on %d programs with loop exits; '
                       'theorem C02X_sound is about a model that is not the code' % len(bad_i),
                       {'kind': 'correspondence-impl', 'theorem': 'C02X_sound (model tie)', 'tree': trees[idx][0], 'scope': 'func',
                        'source': obs_of[idx][0], 'supp_alternatives': {str(k): v for k, v in obs_of[idx][1]['seen'].items()},
-                       'supp_unused': sorted(obs_of[idx][1]['unused'])}, found_input=False)
+                       'supp_unused': sorted(obs_of[idx][1]['unused'])})
     if bad_r:
         idx, eff = ref_meta[bad_r[0]]
-        ctx.violation('(R) correspondence Model/SemXS.v vs CPython no longer checks on %d executions' % len(bad_r),
-                      {'kind': 'correspondence-ref', 'theorem': 'runXs semantics', 'tree': trees[idx][0], 'scope': trees[idx][1], 'decisions': eff},
-                      found_input=False)
+        ctx.extension_failure('(R) correspondence Model/SemXS.v vs CPython no longer checks on %d executions' % len(bad_r),
+                              {'kind': 'correspondence-ref', 'theorem': 'runXs semantics', 'tree': trees[idx][0], 'scope': trees[idx][1], 'decisions': eff})
     if bad_s and not direct_bad:
         idx, eff = ref_meta[bad_s[0]]
-        ctx.violation('instance of theorem C02X_sound fails in the model', {'kind': 'theorem-instance', 'tree': trees[idx][0], 'decisions': eff},
-                      found_input=False)
+        ctx.extension_failure('instance of theorem C02X_sound fails in the model', {'kind': 'theorem-instance', 'tree': trees[idx][0], 'decisions': eff})
 
 
 K3_TREE = [('try', [('assign', [], [(1, 'x')], 'plain'), ('if', [], [('return',)], [('pass',)]), ('assign', [], [(2, 'x')], 'plain')],
